@@ -52,6 +52,8 @@ def DenyOnce (deny : Nat → Option Errno) : Prop :=
 structure Adm (c : Ctx) : Prop where
   mono : Monotone c.ws
   deny : DenyOnce c.deny
+  /-- the /proc listing always shows some process other than the target (the caller, PID 1) -/
+  others : ∃ i ∈ c.w.procs, i.pid ≠ c.w.target
 
 def noDeny : Nat → Option Errno := fun _ => none
 def vanishAt (k : Nat) : Nat → WS := fun i => if i < k then .alive else .gone
